@@ -284,6 +284,13 @@ func (k KeyRing) VerifyJSONs(ctx context.Context, requests []VerifyJSONRequest) 
 
 		// Hold the new keys and remove them from the request queue.
 		for req, res := range fetched {
+			if _, wanted := keyRequests[req]; !wanted {
+				if _, held := keysFetched[req]; held {
+					// A key this fetcher was not asked for must not replace the one
+					// already held from the database or from an earlier fetcher.
+					continue
+				}
+			}
 			keysFetched[req] = res
 			delete(keyRequests, req)
 		}
